@@ -190,6 +190,33 @@ def load_property(prop, tier, seed, REPO):
         load_part(rep, root, {"wf", "cover", "raises_only", "lineno"})
         heap_part(rep, root, ["program"], {"prepass", "before-side-effects", "cover"})
         param_part(rep, "C12", tier, seed, clauses={"typed", "cover"})
+        # `exists in the selected libraries`: the selection predicate of Program.__init__ and the lookup (the obligations of C19 this property rests on)
+        try:
+            from . import libprops, loadprops
+
+            lrecs, lfns = libprops.records(repo)
+            known = set(json.dumps(f, sort_keys=True, default=str) for f in rep.functions)
+            rep.functions += [f for f in lfns if json.dumps(f, sort_keys=True, default=str) not in known]
+            add_records(rep, [_strip(dict(r, clause="wf")) for r in lrecs], None)
+            frecs, ffns = loadprops.verify_find_command_class(Repo(root))
+            rep.functions += ffns
+            add_records(rep, [_strip(r) for r in frecs], None)
+            lcases = libprops.cases("quick", seed)
+            louts = libprops.run_real(lcases, root)
+            lf = 0
+            for c, o in zip(lcases, louts):
+                bad = libprops.judge(c, o)
+                if any(b[0] == "harness-error" for b in bad):
+                    rep.errors.append("registry battery: %s" % (bad[0][1],))
+                elif bad:
+                    lf += 1
+                    rep.violations.append({"obligation": "mpilot/program.py::Program.__init__/bounded:lookup", "function": "mpilot/program.py::Program.__init__",
+                                           "how": "bounded-concrete", "case": {"history": c["history"], "final": c["final"]}, "real": o,
+                                           "violated": [b[0] for b in bad], "violated_detail": bad, "confirmed": True})
+            parts.append({"name": "library-selection", "evaluations": len(lcases), "distinct_nontrivial": len(lcases), "failures": lf,
+                          "rule": "the registry battery of C19 (prefix-related package names, duplicate and renamed commands, histories): a name is accepted exactly when a selected library defines it"})
+        except Exception as e:
+            rep.errors.append("library selection: %s: %s" % (type(e).__name__, e))
         cases = L.fault_cases(repo, tier)
         outs = L.run_real(cases, root, workers=16)
         parts.append(battery(rep, "fault-injection", cases, outs, L.judge_fault, {"accept", "reject", "raises_only", "specific-error", "before-side-effects", "names-offender"},
